@@ -602,6 +602,9 @@ class Verifier:
         if uses_inv is None:
             uses_inv = fi.kind in ("method", "setter", "property") and not fi.name.startswith("_")
 
+        if getattr(fi, "foreign_decorators", None):
+            raise Unsupported(f"{fi.qualname} is wrapped by decorator(s) {fi.foreign_decorators}: semantics not modelled")
+
         def run():
             ex.fname = short
             reg.current = con
